@@ -226,6 +226,18 @@ func (r *R) ev(n *N, e *Env) V {
 			return *p
 		}
 		return r.force(th)
+	case "subst":
+		p := e.find(n.S)
+		if p == nil {
+			panic(ErrV{"unbound", n.S})
+		}
+		if th, ok := (*p).(*Thunk); ok {
+			return Plain.Sx(th.n)
+		}
+		if i, ok := (*p).(int64); ok {
+			return strconv.FormatInt(i, 10)
+		}
+		panic(ErrV{"budget", "substitute-of-nonint-value"})
 	case "try":
 		ne := NewEnv(e)
 		var out V
